@@ -21,6 +21,7 @@ RULE += (" " + 'Also: the on-disk library is opened / edited (also into unparsab
 RULE += (" " + 'The library has a ninth variant with its bindings 12 lines down and 60-90 columns to the right; documents use fields of imported tuples through further bindings; 8 % of the texts have multi-byte characters before a fault on the same line; 30 % of the positions sit on the name after a dot; positions include 2^31, 2^32-2, 2^32-1. An out-of-document definition range is classed as the known finding only when the target changed after the requester was last analysed and the range fits the text the target had then.')
 RULE += (" " + 'Every library variant has nested tuples far to the right; 8 % of the texts walk library tuples through local bindings, lists, tuples, copies and the result of an imported function; a *_test.ucg file on disk is opened / edited / closed like the library and imported by documents.')
 RULE += (" " + 'A file outside the workspace root (`../outside.ucg`) is opened / edited / closed like the library and imported by documents.')
+RULE += (" " + '6 % of the texts are lines with escaped strings (\\n, \\t, \\", \\\\) that do not start in column 0 and are followed by more tokens on the same line.')
 
 LIB = ("let traceid = 1;\nlet val = 7;\nlet mk = func (x) => {v = x, s = \"s\"};\nlet cfg = {host = \"h\", port = 80};\n"
        # nested tuples written far to the right: a position in here is outside the short lines of the documents
